@@ -4,7 +4,7 @@ import json,sys
 pid=sys.argv[1]
 p=[json.loads(l) for l in open('/verif/properties.jsonl') if json.loads(l)['id']==pid][0]
 print(f"""You are testing how robust a Rust code base (barter-rs, an event-driven algorithmic trading engine) is against subtle regressions.
-You have your own scratch git worktree of the repository at /tmp/seedwork/{pid} . Work ONLY inside that directory (and write your results to /tmp/seeded-out/{pid}/). Do NOT read or touch /repo, /verif or any other directory under /tmp/seedwork. There is no network; always pass --offline to cargo and always set the environment variable CARGO_TARGET_DIR=/tmp/seedwork/target (a build cache shared with other workers; cargo may print 'Blocking waiting for file lock' - just wait).
+You have your own scratch git worktree of the repository at /tmp/seedwork/{pid} . Work ONLY inside that directory (and write your results to /tmp/seeded-out/{pid}/). Do NOT read or touch /repo, /verif or any other directory under /tmp/seedwork. There is no network; always pass --offline to cargo and always set CARGO_TARGET_DIR=/tmp/seedwork/{pid}/target and CARGO_INCREMENTAL=0 CARGO_PROFILE_DEV_DEBUG=0 CARGO_PROFILE_TEST_DEBUG=0 on every cargo command (your own build directory; without these settings it grows to 20 GB and fills the disk; delete it when you are completely finished).
 
 Here is a semantic property that the code base is supposed to satisfy:
 
@@ -13,7 +13,7 @@ STATEMENT: {p['statement']}
 QUANTIFIED OVER: {p['quantifier']['text']}
 RELEVANT FILES (a starting point, not exhaustive): {', '.join(p['anchors']['files'])}
 
-Your task: produce TWO different, independent source changes to the library code (not to tests) of the repository, each of which BREAKS this property while the code still compiles and the complete existing test suite still passes (`cargo test --workspace --no-fail-fast --offline` in the worktree; one test `test_historical_clock_time_delta_calculation` is known flaky and may be ignored). The two changes should be in different functions or mechanisms if at all possible.
+Your task: produce TWO different, independent source changes to the library code (not to tests) of the repository, each of which BREAKS this property while the code still compiles and the complete existing test suite still passes (`cargo test --workspace --no-fail-fast --offline --lib --tests` in the worktree; one test `test_historical_clock_time_delta_calculation` is known flaky and may be ignored). The two changes should be in different functions or mechanisms if at all possible.
 Requirements for each change:
  * It must be realistic - the kind of slip a maintainer could make in a refactor or 'optimisation' (a swapped comparison, a dropped branch, a wrong field, an off-by-one, an early return, a cache not invalidated, ...), small (a few lines), and it must not be flagged by the compiler.
  * It must need something SPECIFIC to manifest: a particular multi-step sequence of operations, an unusual input, a stale / duplicate / out-of-order message, a particular interleaving, a second exchange or instrument, an equal-timestamp tie, or two cooperating sites that each look fine alone. Changes that ordinary use or the existing tests would expose at once are not wanted.
